@@ -307,10 +307,11 @@ func genC20(e *emitter, tier string, seed uint64) {
 	}
 	// the payment UTXO exceeds the price by 1, 2, 3 … satoshis (the dummy output is then that small), at every position
 	for _, variant := range []string{"1", "2"} {
-		for _, over := range []uint64{1, 2, 3, 135, 136, 137} {
+		// (offset 0: a funding output worth exactly the price is not "more than the price"; ^uint64(0) = price − 1)
+		for _, over := range []uint64{0, ^uint64(0), 1, 2, 3, 135, 136, 137} {
 			for pos := 0; pos < 3; pos++ {
 				seller, buyer := genKey(r), genKey(r)
-				price := uint64(1 + r.n(20000))
+				price := uint64(2 + r.n(20000))
 				ou := mkU(seller, 1, p2pkhOf(seller))
 				us := []ordUTXO{mkU(buyer, 1+uint64(r.n(int(price))), p2pkhOf(buyer)), mkU(buyer, 1+uint64(r.n(int(price))), p2pkhOf(buyer)), mkU(buyer, 5000000, p2pkhOf(buyer))}
 				if variant == "2" {
